@@ -200,6 +200,7 @@ Print Assumptions C05_state_records_response.
 Theorem C05_request_fields : forall c st e,
   let q := make_request c st e in
   (q_ireq q = true -> c_imode c = true /\ s_has st = true /\
+                      s_host st = e_server e /\ s_port st = e_port e /\
                       q_rx q = s_crx st /\ q_tx q = s_ctx st /\ q_psrx q = s_srx st) /\
   (q_ireq q = false -> q_rx q = zero64 /\ q_tx q = time64_of_time (e_ref e)).
 Proof. exact interleaved_request_fields. Qed.
@@ -255,7 +256,7 @@ Definition ex_hdr (lvm stratum : Z) (org rx tx : time64) : bytes :=
 
 (* a basic request sent at Unix time 1.7e9 s to server 2130706433 (127.0.0.1) *)
 Definition ex_q (nts : bool) (uid key : bytes) : request :=
-  {| q_scion := false; q_server := 2130706433; q_server_ia := 0; q_local_ia := 0; q_local := 0;
+  {| q_scion := false; q_server := 2130706433; q_port := 123; q_server_ia := 0; q_local_ia := 0; q_local := 0;
      q_authkey := false; q_bufcap := if nts then 1024%nat else 48%nat; q_deadline := true;
      q_nts := nts; q_uid := uid; q_s2c := key;
      q_ireq := false; q_rx := ex_t 0 0; q_tx := ex_t 3908988800 5;
@@ -341,7 +342,7 @@ Theorem C05_scion_allfail_pinned_refuted :
 Proof.
   exists {| c_scion := true; c_imode := false; c_nts := false; c_server := 2130706433; c_server_ia := 1; c_local_ia := 2;
             c_local := 2130706433; c_deadline := true |}.
-  exists [{| e_ref := 1700000000000000000; e_ctx1 := 1700000000000001000; e_uid := []; e_s2c := []; e_authkey := false;
+  exists [{| e_ref := 1700000000000000000; e_ctx1 := 1700000000000001000; e_uid := []; e_s2c := []; e_authkey := false; e_server := 2130706433; e_port := 123;
              e_evs := [EvDgram {| g_before := true; g_xflags := 0;
                                   g_front := FrontSCION {| sv_decode_ok := true; sv_nlayers := 2; sv_last := 0; sv_len_ok := true;
                                                            sv_src_ia := 1; sv_dst_ia := 2; sv_src_host := Some 2130706433;
@@ -424,7 +425,7 @@ Print Assumptions C05_scion_accept_clauses.
 
 (* the hypotheses are satisfiable: a SCION client with the key, server 127.0.0.1 in ISD-AS 1, client in 2 *)
 Definition ex_sq : request :=
-  {| q_scion := true; q_server := 2130706433; q_server_ia := 1; q_local_ia := 2; q_local := 2130706433;
+  {| q_scion := true; q_server := 2130706433; q_port := 123; q_server_ia := 1; q_local_ia := 2; q_local := 2130706433;
      q_authkey := true; q_bufcap := Z.to_nat 9188; q_deadline := true;
      q_nts := false; q_uid := []; q_s2c := [];
      q_ireq := false; q_rx := ex_t 0 0; q_tx := ex_t 3908988800 5;
@@ -462,14 +463,14 @@ Proof. eexists. vm_compute. reflexivity. Qed.
 
 (* the oracle rejects an offset based on a datagram whose authenticator does not verify *)
 Example C05_ex_oracle_rejects_bad_mac :
-  C05_ok {| oq_nts := false; oq_ireq := false; oq_prev := []; oq_rx := ex_t 0 0; oq_tx := ex_t 3908988800 5;
+  C05_ok {| oq_nts := false; oq_ireq := false; oq_sid := 1; oq_prev := []; oq_rx := ex_t 0 0; oq_tx := ex_t 3908988800 5;
             oq_ref := 1700000000000000000 |}
          [{| o_from_server := true; o_payload := ex_good; o_uid_ok := false; o_auth_ok := false; o_spao_ok := false |}]
          (ObsOffset 1700000000000001000 1700000000000232830 1700000000000465661 1700000000000900000 (-101254)) = false.
 Proof. vm_compute. reflexivity. Qed.
 (* ... and accepts it when the authenticator is in order *)
 Example C05_ex_oracle_accepts_good_mac :
-  C05_ok {| oq_nts := false; oq_ireq := false; oq_prev := []; oq_rx := ex_t 0 0; oq_tx := ex_t 3908988800 5;
+  C05_ok {| oq_nts := false; oq_ireq := false; oq_sid := 1; oq_prev := []; oq_rx := ex_t 0 0; oq_tx := ex_t 3908988800 5;
             oq_ref := 1700000000000000000 |}
          [{| o_from_server := true; o_payload := ex_good; o_uid_ok := false; o_auth_ok := false; o_spao_ok := true |}]
          (ObsOffset 1700000000000001000 1700000000000232830 1700000000000465661 1700000000000900000 (-101254)) = true.
@@ -478,36 +479,42 @@ Proof. vm_compute. reflexivity. Qed.
 (* the oracle keeps its own history: an interleaved response (origin = the request's receive field)
    combined with a receive timestamp that is not the one of the datagram the previous success was
    based on - e.g. that of a response rejected for "transmit before receive", kept by mistake - is rejected *)
-Definition ex_ireq (prev : list time64) : oreq :=
-  {| oq_nts := false; oq_ireq := true; oq_rx := ex_t 3908988800 77; oq_tx := ex_t 3908988800 5; oq_prev := prev;
+Definition ex_ireq (prev : list (Z * time64)) : oreq :=
+  {| oq_nts := false; oq_ireq := true; oq_rx := ex_t 3908988800 77; oq_tx := ex_t 3908988800 5; oq_sid := 1; oq_prev := prev;
      oq_ref := 1700000000000000000 |}.
 Definition ex_iresp : bytes := ex_hdr 36 1 (ex_t 3908988800 77) (ex_t 3908988801 1000000) (ex_t 3908988800 2000000).
 Definition ex_iview : oview :=
   {| o_from_server := true; o_payload := ex_iresp; o_uid_ok := false; o_auth_ok := false; o_spao_ok := true |}.
 (* t1 = 1699999950 s: fifty seconds in the past, the receive field of no accepted datagram *)
 Example C05_ex_oracle_rejects_stale_t1 :
-  C05_ok (ex_ireq [ex_t 3908988799 0]) [ex_iview]
+  C05_ok (ex_ireq [(1, ex_t 3908988799 0)]) [ex_iview]
          (ObsOffset 1699999999000001000 1699999950000000000 1700000000000465661 1699999999000900000
                     (clock_offset 1699999999000001000 1699999950000000000 1700000000000465661 1699999999000900000)) = false.
 Proof. vm_compute. reflexivity. Qed.
 (* the same observation when the oracle's history does hold that timestamp *)
 Example C05_ex_oracle_accepts_recorded_t1 :
-  C05_ok (ex_ireq [ex_t 3908988750 0]) [ex_iview]
+  C05_ok (ex_ireq [(1, ex_t 3908988750 0)]) [ex_iview]
          (ObsOffset 1699999999000001000 1699999950000000000 1700000000000465661 1699999999000900000
                     (clock_offset 1699999999000001000 1699999950000000000 1700000000000465661 1699999999000900000)) = true.
 Proof. vm_compute. reflexivity. Qed.
+(* ... and is rejected when that timestamp was recorded from a measurement of ANOTHER server *)
+Example C05_ex_oracle_rejects_other_server_t1 :
+  C05_ok (ex_ireq [(2, ex_t 3908988750 0)]) [ex_iview]
+         (ObsOffset 1699999999000001000 1699999950000000000 1700000000000465661 1699999999000900000
+                    (clock_offset 1699999999000001000 1699999950000000000 1700000000000465661 1699999999000900000)) = false.
+Proof. vm_compute. reflexivity. Qed.
 (* a sequence: a success records the datagram's receive field, an error leaves the history alone *)
 Example C05_ex_basis :
-  C05_basis {| oq_nts := false; oq_ireq := false; oq_prev := [ex_t 1 2]; oq_rx := ex_t 0 0; oq_tx := ex_t 3908988800 5;
+  C05_basis {| oq_nts := false; oq_ireq := false; oq_sid := 1; oq_prev := [(7, ex_t 1 2)]; oq_rx := ex_t 0 0; oq_tx := ex_t 3908988800 5;
                oq_ref := 1700000000000000000 |}
             [{| o_from_server := true; o_payload := ex_good; o_uid_ok := false; o_auth_ok := false; o_spao_ok := true |}]
             (ObsOffset 1700000000000001000 1700000000000232830 1700000000000465661 1700000000000900000 (-101254))
-  = [ex_t 3908988800 1000000] /\
-  C05_basis (ex_ireq [ex_t 1 2]) [ex_iview] ObsError = [ex_t 1 2].
+  = [(1, ex_t 3908988800 1000000)] /\
+  C05_basis (ex_ireq [(7, ex_t 1 2)]) [ex_iview] ObsError = [(7, ex_t 1 2)].
 Proof. split; vm_compute; reflexivity. Qed.
 
 (* the hypotheses of the history theorem are satisfiable: histories without datagrams, any views *)
-Example C05_ex_ops_faithful : ops_faithful ex_open_none (fun _ _ => []) [HCall [{| e_ref := 0; e_ctx1 := 0; e_uid := []; e_s2c := []; e_authkey := false; e_evs := [EvErr true] |}]; HReset].
+Example C05_ex_ops_faithful : ops_faithful ex_open_none (fun _ _ => []) [HCall [{| e_ref := 0; e_ctx1 := 0; e_uid := []; e_s2c := []; e_authkey := false; e_server := 2130706433; e_port := 123; e_evs := [EvErr true] |}]; HReset].
 Proof.
   intros envs [H|[H|[]]]; [|discriminate]. inversion H; subst. constructor; [|constructor].
   split; [constructor|]. intros q. constructor.
@@ -520,7 +527,7 @@ Proof. exists (fun k n ad pt ct => ex_open k n ad ct = Some pt). auto. Qed.
 
 (* the oracle rejects an offset that is based on no delivered genuine datagram *)
 Example C05_ex_oracle_rejects :
-  C05_ok {| oq_nts := false; oq_ireq := false; oq_prev := []; oq_rx := ex_t 0 0; oq_tx := ex_t 3908988800 5;
+  C05_ok {| oq_nts := false; oq_ireq := false; oq_sid := 1; oq_prev := []; oq_rx := ex_t 0 0; oq_tx := ex_t 3908988800 5;
             oq_ref := 1700000000000000000 |}
          [{| o_from_server := false; o_payload := ex_good; o_uid_ok := false; o_auth_ok := false; o_spao_ok := true |}]
          (ObsOffset 1700000000000001000 1700000000000232830 1700000000000465661 1700000000000900000 (-101254)) = false.
